@@ -18,6 +18,36 @@ fn main() {
     // under test it is data (a Panic event closes shard 0, which no specification accepts); a panic of
     // the harness itself stays a tool error.
     let cmd = argv[1].clone();
+    // watchdog: a recorder that logs nothing for VH_STALL seconds (default 900) is stuck inside a call
+    // of the library; that is reported like a panic (shard 0 is closed with a Panic event, key "hang")
+    if cmd != "c14-record" {
+        let prefix = args.get("out").map(|s| s.to_string());
+        let cmd2 = cmd.clone();
+        std::thread::spawn(move || {
+            let stall: u64 = std::env::var("VH_STALL").ok().and_then(|s| s.parse().ok()).unwrap_or(900);
+            let mut last = vh::util::PROGRESS.load(std::sync::atomic::Ordering::Relaxed);
+            let mut since = std::time::Instant::now();
+            loop {
+                std::thread::sleep(std::time::Duration::from_secs(2));
+                let now = vh::util::PROGRESS.load(std::sync::atomic::Ordering::Relaxed);
+                if now != last {
+                    last = now;
+                    since = std::time::Instant::now();
+                } else if since.elapsed().as_secs() >= stall {
+                    if let Some(prefix) = &prefix {
+                        use std::io::Write;
+                        let mut f = std::fs::OpenOptions::new().create(true).append(true).open(format!("{prefix}.0.ndjson")).expect("shard 0");
+                        writeln!(f, "{}", serde_json::json!({"op":"Run","scn":format!("{cmd2}-hang")})).unwrap();
+                        writeln!(f, "{}", serde_json::json!({"op":"Panic","in":"recorder","key":"hang","msg":format!("no progress for {stall} s: a library call does not return")})).unwrap();
+                        println!("{}", serde_json::json!({"runs":1,"events":2,"hang":true}));
+                        std::process::exit(0);
+                    }
+                    eprintln!("recorder made no progress for {stall} s");
+                    std::process::exit(101);
+                }
+            }
+        });
+    }
     let r = vh::util::catch(std::panic::AssertUnwindSafe(|| dispatch(&cmd, &args)));
     if let Err(e) = r {
         let loc = e.split(": ").next().unwrap_or("").to_string();
